@@ -55,7 +55,8 @@ func rulePanics(c *Ctx, rule string) {
 	panicsOf := func(f *ssa.Function) []*ssa.Panic {
 		var out []*ssa.Panic
 		an.AllInstrs(f, func(in ssa.Instruction) {
-			if p, ok := in.(*ssa.Panic); ok {
+			if p, ok := in.(*ssa.Panic); ok && !isRangeFuncPanic(in) {
+				// (the panics of a "rangefunc.*" block are the compiler's own checks of the range-over-func protocol)
 				out = append(out, p)
 			}
 		})
@@ -156,8 +157,8 @@ func ruleOneParser(c *Ctx, rule string) {
 	g := an.NewGraph(c.P)
 	split := c.P.MustFunc("syntax.(*Interceptors).Split")
 	newSeg := c.P.MustFunc("syntax.(*Interceptors).NewSegment")
-	static := func(_ *ssa.Function, e an.Edge) bool { return e.Kind == "static" }
-	for _, k := range []string{"mux.CheckSyntax", "mux.URL", "tree.(*Tree).getNode", "tree.(*node).checkAmbiguous", "syntax.(*Interceptors).URL"} {
+	static := func(_ *ssa.Function, e an.Edge) bool { return e.Kind == "static" || e.Kind == "closure" }
+	for _, k := range []string{"mux.CheckSyntax", "mux.URL", "tree.(*Tree).Add", "syntax.(*Interceptors).URL"} {
 		f := c.P.MustFunc(k)
 		reach := g.Reach([]*ssa.Function{f}, static)
 		_, ok := reach[split]
@@ -166,9 +167,9 @@ func ruleOneParser(c *Ctx, rule string) {
 	reach := g.Reach([]*ssa.Function{split}, static)
 	_, ok := reach[newSeg]
 	c.R.Add(rule, c.fk(split), "segments-by:"+an.FuncKey(newSeg), c.P.Pos(split.Pos()), ok, ifelse(ok, "Split builds segments with NewSegment", "Split no longer builds segments with NewSegment"))
-	// Tree.Add parses through getNode and the ambiguity walk
+	// every caller of the segment constructor inside the tree package is below Split or splits an existing segment
 	add := c.A.TreeAdd
 	r2 := g.Reach([]*ssa.Function{add}, static)
-	_, ok1 := r2[c.P.MustFunc("tree.(*Tree).getNode")]
-	c.R.Add(rule, c.fk(add), "registers-through:tree.(*Tree).getNode", c.P.Pos(add.Pos()), ok1, ifelse(ok1, an.Chain(r2, c.P.MustFunc("tree.(*Tree).getNode")), "registration no longer goes through getNode"))
+	_, ok1 := r2[newSeg]
+	c.R.Add(rule, c.fk(add), "registers-through:"+an.FuncKey(newSeg), c.P.Pos(add.Pos()), ok1, ifelse(ok1, an.Chain(r2, newSeg), "registration no longer builds its segments with NewSegment"))
 }
